@@ -97,6 +97,9 @@ def candidate_sites():
                     in_block_comment = False
                 continue
             code = l.split("//")[0]
+            # statement deletion: a one-line assignment / compound assignment / method-call statement (not a `let`)
+            if re.match(r"^\s+(?!let\b|return\b|use\b|pub\b|fn\b|if\b|for\b|while\b|match\b|else\b|\}|\.)[\w\.\[\]\*&\(\)]+(\s*[\+\-\*/]?=\s.*|\.\w+\(.*\));\s*$", code) and code.count("(") == code.count(")"):
+                sites.append({"file": f, "line": i + 1, "op": "stmt-deleted", "col": 0, "old": l, "new": re.match(r"^\s*", l).group(0) + "// (statement deleted)"})
             # leave string literals alone (messages, formats): mutate only outside quotes
             for name, rx, rep in OPS:
                 for m in rx.finditer(code):
@@ -237,6 +240,7 @@ def main():
     ap.add_argument("--slots", type=int, default=3)
     ap.add_argument("--out", default=os.path.join(VERIF, "mutation_sweep"))
     ap.add_argument("--files", default="")
+    ap.add_argument("--ops", default="", help="only these operators (comma separated)")
     ap.add_argument("--root", default="/tmp/msweep")
     ap.add_argument("--seeded", action="store_true", help="re-check the hand-made seeded changes of /verif/seeded instead of sampling mechanical mutants")
     a = ap.parse_args()
@@ -247,6 +251,9 @@ def main():
     if a.files:
         keep = set(a.files.split(","))
         sites = [s for s in sites if s["file"] in keep]
+    if a.ops:
+        keep = set(a.ops.split(","))
+        sites = [s for s in sites if s["op"] in keep]
     rnd = random.Random(a.seed)
     # sample per operator class evenly enough: shuffle, then cap the share of any single (file, op)
     rnd.shuffle(sites)
